@@ -21,6 +21,8 @@ import sys
 import time
 import tokenize
 
+import warnings
+
 import common
 from common import g_Z, g_N, g_bool, g_list
 
@@ -438,7 +440,10 @@ class Gen:
         for ci in range(ncls):
             lines.append('class K%d:' % ci)
             for a in range(rng.randint(1, 3)):
-                lines.append('    a%d = %d' % (a, rng.randint(0, 9)))
+                if a and rng.random() < 0.4:
+                    lines.append('    a%d = %s' % (a, rng.choice(['a0 + %d', '%d - a0', 'a0 * %d', '%d if a0 else 1', '-%d']) % rng.randint(1, 5)))
+                else:
+                    lines.append('    a%d = %d' % (a, rng.randint(0, 9)))
                 sc.attrs.append(('attr', ('var', 'K%d' % ci), 'a%d' % a))
         for hi in range(rng.randint(1, 2)):
             ps = ['p', 'q'][:rng.randint(1, 2)]
@@ -498,6 +503,7 @@ def _alarm(signum, frame):
 
 def run_trace(src, limit=4.0):
     """('ok', repr(trace)) | ('exc', type name, message)"""
+    warnings.simplefilter('ignore', SyntaxWarning)
     try:
         code = compile(src, '<prog>', 'exec')
     except SyntaxError as e:
@@ -509,7 +515,7 @@ def run_trace(src, limit=4.0):
     signal.setitimer(signal.ITIMER_REAL, limit)
     try:
         exec(code, g)
-        return ('ok', repr(g.get('trace', '<no trace>')))
+        return ('ok', re.sub(r'<(function|generator object) \S+ at 0x[0-9a-fA-F]+>', r'<\1>', repr(g.get('trace', '<no trace>'))))
     except _Timeout:
         return ('exc', 'Timeout', '')
     except RecursionError:
@@ -762,7 +768,17 @@ class Info:
         name = assign.targets[0].id
         sc = self.scope_of(assign.value)
         if isinstance(sc, ast.ClassDef):
-            return False
+            # a class attribute: assigned once, never stored through an attribute, value built from stable names
+            if self.bindings(sc).get(name, 0) != 1 or not self.is_pure(assign.value):
+                return False
+            if any(isinstance(n, ast.Attribute) and n.attr == name and isinstance(n.ctx, (ast.Store, ast.Del))
+                   for n in ast.walk(self.tree)):
+                return False
+            for f in self.free_names(assign.value):
+                rs = self.resolve(f, sc)
+                if rs is None or self.bindings(rs).get(f, 0) != 1:
+                    return False
+            return name not in self.free_names(assign.value)
         if self.bindings(sc).get(name, 0) != 1 or not self.is_pure(assign.value):
             return False
         free = self.free_names(assign.value)
@@ -1110,20 +1126,27 @@ def ptype_name(tree_name):
     return 'P_other'
 
 
-def inline_why(refs, rhs):
-    """Classifier (from the input alone) of the known ways in which the unparenthesised replacement breaks."""
+def inline_why(refs, rhs, st):
+    """Classifiers (from the input alone) of the known ways in which inline breaks the program."""
+    out = []
+    suite = st.parent.parent
+    if suite.type == 'suite' and len([c for c in suite.children if c.type not in ('newline', 'indent', 'dedent')]) == 1:
+        out.append('empty-block')
     loose = rhs.type in ('test', 'lambdef', 'or_test', 'and_test', 'not_test', 'comparison')
+    compound = rhs.type in EXPR_TYPES and rhs.type not in ('name', 'number', 'atom', 'atom_expr')
     for tn in refs:
         p = tn.parent
         if p.type == 'dictorsetmaker' and loose:
             i = p.children.index(tn)
             if i > 0 and p.children[i - 1].type == 'operator' and p.children[i - 1].value == '**':
-                return 'dict-splat-bare'
+                out.append('dict-splat-bare')
         if p.type == 'fstring_expr':
             first = rhs.get_first_leaf().value
-            if rhs.type == 'lambdef' or first == '{' or rhs.type == 'testlist_star_expr' and False:
-                return 'fstring-bare'
-    return None
+            if rhs.type == 'lambdef' or first == '{':
+                out.append('fstring-bare')
+        if p.type == 'trailer' and p.children[0].value == '.' and compound:
+            out.append('attribute-reference-bare')
+    return out
 
 
 def inline_cases(script, src, new, line, col):
@@ -1132,15 +1155,15 @@ def inline_cases(script, src, new, line, col):
     try:
         names = script.get_references(line, col, include_builtins=True)
     except Exception as e:
-        return [], 0, ['get_references raised %r' % e], None
+        return [], 0, ['get_references raised %r' % e], []
     tns = [d._name.tree_name for d in names if d._name.tree_name is not None]
     defs = [t for t in tns if t.is_definition()]
     refs = sorted((t for t in tns if not t.is_definition()), key=lambda t: t.start_pos)
     if len(defs) != 1:
-        return [], 0, [], None
+        return [], 0, [], []
     st = defs[0].get_definition()
     rhs = st.get_rhs()
-    why = inline_why(refs, rhs)
+    why = inline_why(refs, rhs, st)
     if st.start_pos[0] != st.end_pos[0] or st.parent.type != 'simple_stmt' or len(st.parent.children) != 2:
         return [], len(refs), [], why
     dline = st.start_pos[0]
@@ -1189,7 +1212,7 @@ def inline_cases(script, src, new, line, col):
             skipped += len(ts)
             continue
         pts = '[' + '; '.join(ptype_name(t) for t in ts) + ']'
-        bad_slot = why == 'dict-splat-bare' and pt == 'P_dictorsetmaker' and lv == 6
+        bad_slot = 'dict-splat-bare' in why and pt == 'P_dictorsetmaker' and lv == 6
         case = '(%s, %s, %s, %s, %s, %d, %s, %s, %s, %s, %s)' % (
             g_bool(is_tuple), x, r, pt, g_bool(mid), lv, e, obs, oldt, pts, g_bool(not bad_slot))
         cases.append((case, dict(line=L, old=ol, new=nl, region=region, slot=pt, level=lv, rhs=rhs.get_code(False),
@@ -1223,9 +1246,10 @@ def find_selection(info, text, line, col, ucol=None, uline=None):
 
 def _stored_names(stmts):
     out = []
+    inner = {id(t) for s in stmts for n in ast.walk(s) if isinstance(n, ast.comprehension) for t in ast.walk(n.target)}
     for s in stmts:
         for n in ast.walk(s):
-            if isinstance(n, ast.Name) and isinstance(n.ctx, (ast.Store, ast.Del)) and n.id not in out:
+            if isinstance(n, ast.Name) and isinstance(n.ctx, (ast.Store, ast.Del)) and n.id not in out and id(n) not in inner:
                 out.append(n.id)
             elif isinstance(n, (ast.FunctionDef, ast.ClassDef)) and n.name not in out:
                 out.append(n.name)
@@ -1259,12 +1283,19 @@ def stmt_range_features(info, req):
         fn = info.parent.get(fn)
     inside = {id(n) for s in stmts for n in ast.walk(s)}
     f['loaded_outside'] = sorted({n.id for n in ast.walk(fn) if isinstance(n, ast.Name) and isinstance(n.ctx, ast.Load)
-                                  and id(n) not in inside and n.id in f['stored']})
+                                  and id(n) not in inside and n.id in f['stored']} |
+                                 {n.target.id for n in ast.walk(fn) if isinstance(n, ast.AugAssign) and id(n) not in inside
+                                  and isinstance(n.target, ast.Name) and n.target.id in f['stored']})
+    f['top_assigned'] = sorted({t.id for s in stmts if isinstance(s, (ast.Assign, ast.AugAssign, ast.AnnAssign))
+                                for tt in (s.targets if isinstance(s, ast.Assign) else [s.target])
+                                for t in ast.walk(tt) if isinstance(t, ast.Name)})
     f['loaded_inside'] = sorted({n.id for s in stmts for n in ast.walk(s)
                                  if isinstance(n, ast.Name) and isinstance(n.ctx, ast.Load) and n.id in f['stored']} |
                                 {n.target.id for s in stmts for n in ast.walk(s)
                                  if isinstance(n, ast.AugAssign) and isinstance(n.target, ast.Name)})
-    f['lambda_params'] = sorted({a.arg for s in stmts for n in ast.walk(s) if isinstance(n, ast.Lambda) for a in n.args.args})
+    f['lambda_params'] = sorted({a.arg for s in stmts for n in ast.walk(s) if isinstance(n, ast.Lambda) for a in n.args.args} |
+                                {t.id for s in stmts for n in ast.walk(s) if isinstance(n, ast.comprehension)
+                                 for t in ast.walk(n.target) if isinstance(t, ast.Name)})
     blk = None
     par = info.parent.get(stmts[-1])
     for fld in ('body', 'orelse', 'finalbody'):
@@ -1286,7 +1317,7 @@ def _new_func_shape(new):
 def classify_xfun_stmt(feats, status, new, base):
     """why-string for a failing statement-range extraction (None: not a known class)."""
     if status[0] == 'syntax':
-        if feats['ends_block_next_line'] and re.search(r'def %s\(\):\n\s*\n\s*return \n' % NEW_FUNC, new):
+        if feats['ends_block_next_line'] and re.search(r'def %s\([^)]*\):\n\s*\n\s*return \n' % NEW_FUNC, new):
             return 'range-to-next-line-after-block-end'
         if feats['loop_ctrl_outside']:
             return 'break-continue-leaves-loop'
@@ -1301,6 +1332,8 @@ def classify_xfun_stmt(feats, status, new, base):
     if status[0] == 'exc' and status[1] in ('UnboundLocalError', 'NameError'):
         mm = re.search(r"variable '(\w+)'|name '(\w+)'", status[2])
         v = mm and (mm.group(1) or mm.group(2))
+        if v in outs and len(outs) == 1 and v not in feats['top_assigned'] and not feats['loaded_outside'] and not feats['ends_with_return']:
+            return 'unneeded-last-variable-returned-though-conditionally-assigned'
         if v in feats['stored'] and v in feats['loaded_inside'] and v not in params:
             return 'assigned-variable-read-in-range-not-passed'
         if v in feats['stored'] and v not in outs and v in feats['loaded_outside']:
@@ -1316,10 +1349,92 @@ def classify_xfun_stmt(feats, status, new, base):
     return None
 
 
+EXPRESSION_PARTS = ('or_test and_test not_test comparison expr xor_expr and_expr shift_expr arith_expr term factor '
+                    'power atom_expr').split()
+
+
+VARIABLE_EXTRACTABLE = EXPRESSION_PARTS + ('atom testlist_star_expr testlist test lambdef lambdef_nocond '
+                                           'keyword name number string fstring').split()
+
+
+def _edge_is_unary(n):
+    """jedi trims the first and the last selected child recursively, on both sides: a `factor` reachable that
+    way loses its operator."""
+    if n.type == 'factor':
+        return True
+    if n.type in EXPRESSION_PARTS:
+        return _edge_is_unary(n.children[0]) or _edge_is_unary(n.children[-1])
+    return False
+
+
+def expr_sel_features(module_node, req, selected_text, new):
+    """Classifier features of an expression selection, computed on the parse tree of the input."""
+    f = dict(starts_on_keyword_operator=False, unary_edge=False, lambda_params=[])
+    if selected_text:
+        try:
+            tr = ast.parse(selected_text.strip(), mode='eval')
+            f['lambda_params'] = sorted({a.arg for n in ast.walk(tr) if isinstance(n, ast.Lambda) for a in n.args.args} |
+                                        {t.id for n in ast.walk(tr) if isinstance(n, ast.comprehension)
+                                         for t in ast.walk(n.target) if isinstance(t, ast.Name)})
+        except SyntaxError:
+            pass
+    try:    # the selection normalisation is observed, not modelled
+        from jedi.api.refactoring import extract as _ex
+        nodes = _ex._find_nodes(module_node, (req['line'], req['col']),
+                                None if req.get('uline') is None else (req['uline'], req['ucol']))
+        f['first_node_type'] = nodes[0].type
+    except Exception:
+        f['first_node_type'] = None
+    if req.get('uline') is None:
+        return f
+    pos, until = (req['line'], req['col']), (req['uline'], req['ucol'])
+    start = module_node.get_leaf_for_position(pos, include_prefixes=True)
+    if start is None:
+        return f
+    if start.end_pos == pos and start.get_next_leaf() is not None:
+        start = start.get_next_leaf()
+    end = module_node.get_leaf_for_position(until, include_prefixes=True)
+    if end is None:
+        return f
+    if end.start_pos > until and end.get_previous_leaf() is not None:
+        end = end.get_previous_leaf()
+    f['starts_on_keyword_operator'] = start.type == 'keyword' and (
+        start.value in ('and', 'or', 'in', 'is') or start.value == 'not' and start.parent.type == 'comp_op')
+    node = start
+    if start.type == 'operator' or start.type == 'keyword' and start.value not in ('None', 'True', 'False'):
+        node = start.parent
+    while node.parent is not None and node.end_pos < end.end_pos:
+        node = node.parent
+    if node.type in EXPRESSION_PARTS and node.type != 'factor':
+        sel = [c for c in node.children if c.end_pos > pos and c.start_pos < until and c.type not in ('operator', 'keyword')]
+        if sel:
+            f['unary_edge'] = _edge_is_unary(sel[0]) or _edge_is_unary(sel[-1])
+    return f
+
+
+def classify_expr_sel(kind, f, status, new):
+    if f.get('is_target'):
+        return 'assignment-target-extracted'
+    if kind == 'xfun' and f.get('first_node_type') is not None and f['first_node_type'] not in VARIABLE_EXTRACTABLE:
+        return 'non-expression-selection-treated-as-statements'
+    if f['starts_on_keyword_operator']:
+        return 'range-starts-on-keyword-operator'
+    if f['unary_edge']:
+        return 'unary-operator-at-selection-edge'
+    if kind == 'xfun' and f['lambda_params'] and status[0] != 'syntax':
+        params, outs = _new_func_shape(new)
+        if set(f['lambda_params']) & set(params):
+            return 'lambda-parameter-treated-as-variable'
+    return None
+
+
 def make_requests(info, rng, budget, exhaustive=False):
     reqs = []
+    mode = budget.get('mode', 'random')
     # ---- inline
-    cands = info.inline_candidates()
+    cands = info.inline_candidates() if mode != 'matrix-extract' else []
+    if mode == 'matrix-inline':
+        cands = [c for c in cands if c.targets[0].id == 'x']
     if not exhaustive and len(cands) > budget['inline']:
         cands = sorted(rng.sample(cands, budget['inline']), key=lambda n: n.lineno)
     for a in cands:
@@ -1327,12 +1442,17 @@ def make_requests(info, rng, budget, exhaustive=False):
         t = a.targets[0]
         reqs.append(dict(kind='inline', line=t.lineno, col=t.col_offset + rng.randint(0, len(t.id)), eq=eq, at='def'))
         refs = info.references(a)
-        if refs and (exhaustive or rng.random() < 0.35):
+        if refs and (rng.random() < 0.35):
             r = rng.choice(refs)
             reqs.append(dict(kind='inline', line=r.lineno, col=r.col_offset, eq=eq, at='ref'))
+    if mode == 'matrix-inline':
+        return reqs
     # ---- expression selections
     nodes = info.expr_nodes()
     idx = list(range(len(nodes)))
+    if mode == 'matrix-extract':     # only the function under test
+        fdef = [n for n in info.tree.body if isinstance(n, ast.FunctionDef) and n.name == 'f'][0]
+        idx = [i for i in idx if fdef.body[2].lineno <= nodes[i].lineno <= fdef.end_lineno]
     if not exhaustive and len(idx) > budget['nodes']:
         big = [i for i in idx if not isinstance(nodes[i], (ast.Name, ast.Constant))]
         small = [i for i in idx if isinstance(nodes[i], (ast.Name, ast.Constant))]
@@ -1367,7 +1487,8 @@ def make_requests(info, rng, budget, exhaustive=False):
             for n in ast.walk(fn):
                 for fld in ('body', 'orelse'):
                     b = getattr(n, fld, None)
-                    if isinstance(b, list) and b and isinstance(b[0], ast.stmt) and not isinstance(n, ast.ClassDef):
+                    if isinstance(b, list) and b and isinstance(b[0], ast.stmt) and not isinstance(n, ast.ClassDef) \
+                            and not info.is_elif(b[0]):
                         blocks.append(b)
     seen = set()
     srs = []
@@ -1378,12 +1499,12 @@ def make_requests(info, rng, budget, exhaustive=False):
         for i in range(len(b)):
             for j in range(i, min(len(b), i + 3)):
                 srs.append((b, i, j))
-    if not exhaustive and len(srs) > budget['stmts']:
+    if mode == 'matrix-extract':
+        srs = rng.sample(srs, min(len(srs), 2))
+    elif not exhaustive and len(srs) > budget['stmts']:
         srs = rng.sample(srs, budget['stmts'])
     for b, i, j in srs:
         variant = rng.choice(['text-end', 'next-line', 'next-line'])
-        if exhaustive:
-            variant = 'next-line'
         uline, ucol = b[j].end_lineno, b[j].end_col_offset
         if variant == 'next-line':
             if uline + 1 > len(info.lines):
@@ -1417,8 +1538,7 @@ def _prog_task(task):
         return out
     base = run_trace(src)
     out['base'] = base
-    if base[0] != 'ok':
-        return out
+    runs = base[0] == 'ok'      # otherwise only "refuses or compiles" can be checked
     proj = _project()
     nodes = info.expr_nodes()
     for req in make_requests(info, rng, budget, exhaustive):
@@ -1471,6 +1591,7 @@ def _prog_task(task):
                     if kind == 'xfun':
                         sc = info.scope_of(info.stmt_of(sel_node))
                         eq = eq and isinstance(sc, (ast.FunctionDef, ast.Module))
+        eq = eq and runs
         res['eq'] = eq
         status = run_trace(new) if eq else run_trace_compile_only(new)
         res['status'] = status[0]
@@ -1481,8 +1602,18 @@ def _prog_task(task):
             res['skipped'] = skipped
             for p in problems:
                 res['notes'].append(p)
+            order = ['empty-block', 'dict-splat-bare', 'fstring-bare', 'attribute-reference-bare'] if status[0] == 'syntax' \
+                else ['attribute-reference-bare', 'fstring-bare']
+            why = next((w for w in order if w in why), None)
         elif feats is not None:
             why = classify_xfun_stmt(feats, status if eq else (status if status[0] == 'syntax' else ('skip',)), new, base)
+        elif status[0] == 'syntax' or eq and status != base:
+            fe = expr_sel_features(script._module_node, req, res.get('selected_text'), new)
+            want = norm_tokens(res.get('selected_text') or '', True)
+            fe['is_target'] = bool(want) and any(
+                isinstance(getattr(n, 'ctx', None), (ast.Store, ast.Del)) and n.lineno == req['line'] == n.end_lineno
+                and norm_tokens(info.seg(n), True) == want for n in ast.walk(info.tree) if isinstance(n, ast.expr))
+            why = classify_expr_sel(kind, fe, status, new)
         if status[0] == 'syntax':
             res['devs'].append((dict(stream=stream, cls='syntax-error', why=why, sel=req.get('sel')),
                                 dict(error=status[1:], new_code=new),
@@ -1510,6 +1641,8 @@ def _prog_task(task):
                 res['devs'].append((dict(stream='exc', kind='inline', exc=p2['exc'], site=p2['site'], has_until=False,
                                          reaches_eof=False, phase='roundtrip'), dict(error=p2, extracted_code=new),
                                     'inline of the extracted variable raised %s' % p2['exc']))
+            elif o2 == 'refused' and not eq:
+                pass
             elif o2 == 'refused':
                 # `x = e` then a single use: inline must be possible
                 res['devs'].append((dict(stream='roundtrip', cls='inline-refused', message=p2[:60]),
@@ -1535,6 +1668,7 @@ def _prog_task(task):
 
 
 def run_trace_compile_only(src):
+    warnings.simplefilter('ignore', SyntaxWarning)
     try:
         compile(src, '<prog>', 'exec')
         return ('compiled',)
@@ -1588,3 +1722,119 @@ def extract_case(info, script, new, n, text):
         return None
     except Exception as e:
         return None
+
+
+# =====================================================================================
+# 6. exhaustive small scope: right-hand-side kinds x reference slots (inline), selections x slots (extract)
+
+# (text, grammar level of the text)
+RHS_KINDS = [
+    ('a', 15), ('7', 15), ('(a)', 15), ('a if b else c', 1), ('lambda: a', 1), ('lambda q: q + a', 1),
+    ('a or b', 2), ('a and b', 3), ('not a', 4), ('a < b', 5), ('a == b', 5), ('a | b', 6), ('a ^ b', 7), ('a & b', 8),
+    ('a << 1', 9), ('a + b', 10), ('a - b', 10), ('a * b', 11), ('a // 3', 11), ('a % 3', 11), ('-a', 12), ('~a', 12),
+    ('a ** 2', 13), ('h(a)', 14), ('s[0]', 14), ('K.at', 14), ('(a, b)', 15), ('a, b', -1), ('*s, a', -1),
+    ('[a, b]', 15), ('[j for j in s]', 15), ('{1: a}', 15), ('{a}', 15), ('d if a else d', 1), ('s or s', 2),
+    ('a if b else c if a else b', 1), ('a < b < c', 5), ('a in s', 5), ('a is b', 5), ('not a or b', 2),
+]
+CRITICAL_RHS = ['a', 'a if b else c', 'lambda: a', 'a or b', 'not a', 'a < b', 'a | b', 'a + b', 'a * b', '-a', 'a ** 2',
+                'h(a)', 'a, b', '(a, b)', 'd if a else d', 's or s', '{a}']
+
+# ('{}' marks the slot, grammar level of the slot)
+EXPR_SLOTS = [
+    ('{}', 1), ('({})', 1), ('{} if b else c', 2), ('a if {} else c', 2), ('a if b else {}', 1),
+    ('{} or b', 2), ('a or {}', 3), ('{} and b', 3), ('a and {}', 4), ('not {}', 4), ('{} < b', 6), ('a < {}', 6),
+    ('a < {} < c', 6), ('{} in s', 6), ('a in {}', 6), ('{} is b', 6),
+    ('{} | b', 6), ('a | {}', 7), ('{} ^ b', 7), ('a ^ {}', 8), ('{} & b', 8), ('a & {}', 9), ('{} << 1', 9), ('a >> {}', 10),
+    ('{} + b', 10), ('a + {}', 11), ('{} - b', 10), ('a - {}', 11), ('{} * b', 11), ('a * {}', 12), ('{} // 3', 11),
+    ('{} % 3', 11), ('a @ {}', 12), ('-{}', 12), ('~{}', 12), ('+{}', 12), ('{} ** 2', 14), ('2 ** {}', 12),
+    ('h({})', 1), ('h({}, a)', 1), ('h(a, {})', 1), ('h(q={})', 1), ('h(a, *{})', 1), ('h(a, **{})', 1), ('h({}).real', 1),
+    ('h({})(a)', 1), ('{}(a)', 14), ('{}()', 14), ('{}[0]', 14), ('s[{}]', 1), ('s[{}:2]', 1), ('s[0:{}]', 1), ('s[{}].real', 1),
+    ('s[{}, 0]', 1), ('{}.real', 14), ('K.at + {}', 11), ('({}, a)', 0), ('(a, {})', 0), ('[{}]', 0), ('[{}, a]', 0),
+    ('[*{}]', 6), ('[*{}, a]', 6), ('(*{}, a)', 6), ('{{{}: a}}', 1), ('{{a: {}}}', 1), ('{{{}}}', 0), ('{{{}, a}}', 0),
+    ('{{**{}}}', 6), ('{{**{}, 1: 2}}', 6), ('{{*{}}}', 6),
+    ('[j for j in {}]', 2), ('[{} for j in s]', 1), ('[j for j in s if {}]', 2), ('[j for j in s if j < {}]', 6),
+    ('[j for j in s for k in {}]', 2), ('(j for j in {})', 2), ('{{j: {} for j in s}}', 1),
+    ('lambda: {}', 1), ('lambda q={}: q', 1), ('(lambda: {})()', 1), ("f'{{{}}}'", 1), ("f'{{{}!r:>5}}'", 1),
+    ('{} if {} else {}', 2), ('{} + {}', 11), ('h({}, {})', 1), ('(yield {})', 1), ('(z := {})', 1), ('await {}', 15),
+]
+STMT_SLOTS = [
+    ('return {}', 1), ('if {}:\n        pass', 1), ('while {}:\n        break', 1), ('for q in {}:\n        pass', 1),
+    ('for q in {}, a:\n        pass', 1), ('assert {}', 1), ('assert a, {}', 1), ('y = z = {}', 1), ('y: int = {}', 1),
+    ('y = a\n    y += {}', 1), ('{}', 1), ('y = {}, a', 1), ('y = *{}, a', 6), ('del s[{}]', 1), ('s[{}] = 1', 1),
+    ('with {} as z, {}:\n        pass', 1), ('raise {}', 1), ('if a:\n        pass\n    elif {}:\n        pass', 1),
+    ('def g(p={}):\n        return p', 1), ('y = [a]\n    y[{}] = 2', 1), ('global gg\n    gg = {}', 1),
+]
+SEL_KINDS = [('a', 15), ('7', 15), ('a if b else c', 1), ('lambda: a', 1), ('a or b', 2), ('a and b', 3), ('not a', 4),
+             ('a < b', 5), ('a | b', 6), ('a + b', 10), ('a + b + c', 10), ('a - b - c', 10), ('a * b', 11), ('-a', 12),
+             ('a ** 2', 13), ('h(a)', 14), ('h(a)(b)', 14), ('s[0]', 14), ('K.at', 14), ('(a, b)', 15), ('[a, b]', 15),
+             ('[j for j in s]', 15), ('a + -b', 10), ('not a and b', 3), ('a < b < c', 5), ('a in s', 5),
+             ('(lambda q: q + a)(b)', 14), ('h(h(a))', 14), ('a*b + c', 10), ('a + b*c', 10)]
+
+MATRIX_HEAD = '''class K:
+    at = 5
+    bt = at + 1
+def h(p=0, q=0, *r, **k):
+    return p
+def f(a, b, c):
+    s = [a, b, c]
+    d = {1: a, 2: b}
+'''
+MATRIX_TAIL = '''trace = [f(1, 2, 3), f(0, 5, 1), f(4, 0, 0), f(2, 2, 0), f(3, 1, 2)]
+'''
+
+
+def _fill(tmpl, text, level, slot_level):
+    t = text if level >= slot_level else '(' + text + ')'
+    return tmpl.replace('{}', t) if '{{' not in tmpl and '}}' not in tmpl else tmpl.format(*([t] * tmpl.count('{}')))
+
+
+def matrix_inline_program(rhs, slot, is_stmt):
+    body = '    x = %s\n' % rhs
+    tmpl, lv = slot
+    filled = _fill(tmpl, 'x', 15, lv)
+    if is_stmt:
+        body += '    ' + filled + '\n    return a\n' if not filled.startswith('return') else '    ' + filled + '\n'
+    else:
+        body += '    y = %s\n    return y\n' % filled
+    return MATRIX_HEAD + body + MATRIX_TAIL
+
+
+def matrix_extract_program(sel, slot, is_stmt):
+    tmpl, lv = slot
+    filled = _fill(tmpl, sel[0], sel[1], lv)
+    if is_stmt:
+        body = '    ' + filled + '\n    return a\n' if not filled.startswith('return') else '    ' + filled + '\n'
+    else:
+        body = '    y = %s\n    return y\n' % filled
+    return MATRIX_HEAD + body + MATRIX_TAIL
+
+
+def matrix_tasks(ctx):
+    """(inline tasks, extract tasks): every slot with the critical right-hand sides (+ a seeded sample of the
+    others; all of them in the thorough tier); every slot with a rotating choice of selections."""
+    rng = ctx.rng
+    inl, ext = [], []
+    slots = [(s, False) for s in EXPR_SLOTS] + [(s, True) for s in STMT_SLOTS]
+    rhs_all = [r for r, _ in RHS_KINDS]
+    for si, (slot, is_stmt) in enumerate(slots):
+        if ctx.quick:
+            rs = list(CRITICAL_RHS) + rng.sample([r for r in rhs_all if r not in CRITICAL_RHS], 3)
+        else:
+            rs = rhs_all
+        for r in rs:
+            src = matrix_inline_program(r, slot, is_stmt)
+            try:
+                compile(src, '<m>', 'exec')
+            except SyntaxError:
+                continue      # e.g. `await x` outside async, `yield` with return value checks: not a valid input
+            inl.append(('mi:%s|%s' % (r, slot[0]), src, len(inl), dict(mode='matrix-inline'), True))
+        k = 3 if ctx.quick else 10
+        for j in range(k):
+            sel = SEL_KINDS[(si * 7 + j * 11 + ctx.seed) % len(SEL_KINDS)]
+            src = matrix_extract_program(sel, slot, is_stmt)
+            try:
+                compile(src, '<m>', 'exec')
+            except SyntaxError:
+                continue
+            ext.append(('mx:%s|%s' % (sel[0], slot[0]), src, len(ext), dict(mode='matrix-extract'), True))
+    return inl, ext
